@@ -52,10 +52,34 @@ fn read_smiles<F: Follower>(
 ) -> Result<Option<usize>, Error> {
     #[cfg(purr_verif)]
     let _depth = super::depth::Guard::enter();
+
+    if !read_link(input, scanner, follower, trace)? {
+        return Ok(None)
+    }
+
+    let mut result = 1;
+
+    loop {
+        match read_body(scanner, follower, trace)? {
+            Some(length) => result += length,
+            None => break Ok(Some(result))
+        }
+    }
+}
+
+// Reads one <atom> and reports it as a root (no input bond) or as an
+// extension of the head. The bodies that follow are read by the loop in
+// read_smiles, so chains and dot-separated lists use no recursion.
+fn read_link<F: Follower>(
+    input: Option<BondKind>,
+    scanner: &mut Scanner,
+    follower: &mut F,
+    trace: &mut Option<&mut Trace>
+) -> Result<bool, Error> {
     let cursor = scanner.cursor();
     let atom_kind = match read_atom(scanner)? {
         Some(kind) => kind,
-        None => return Ok(None)
+        None => return Ok(false)
     };
 
     match input {
@@ -79,14 +103,7 @@ fn read_smiles<F: Follower>(
         }
     }
 
-    let mut result = 1;
-
-    loop {
-        match read_body(scanner, follower, trace)? {
-            Some(length) => result += length,
-            None => break Ok(Some(result))
-        }
-    }
+    Ok(true)
 }
 
 // <atom> ::= <organic> | <bracket> | <star>
@@ -175,9 +192,10 @@ fn read_split<F: Follower>(
         _ => return Ok(None)
     }
 
-    match read_smiles(None, scanner, follower, trace)? {
-        Some(length) => Ok(Some(length)),
-        None => Err(missing_character(scanner))
+    if read_link(None, scanner, follower, trace)? {
+        Ok(Some(1))
+    } else {
+        Err(missing_character(scanner))
     }
 }
 
@@ -188,10 +206,8 @@ fn read_union<F: Follower>(
     let bond_cursor = scanner.cursor();
     let bond_kind = read_bond(scanner);
 
-    if let Some(length) = read_smiles(
-        Some(bond_kind.clone()), scanner, follower, trace
-    )? {
-        return Ok(Some(length))
+    if read_link(Some(bond_kind.clone()), scanner, follower, trace)? {
+        return Ok(Some(1))
     }
 
     let cursor = scanner.cursor();
